@@ -16,6 +16,7 @@
                     add_full_reduction             -> `addFullReduction`
                     map_func_over_tuple_of_tuples  -> `mapTupleOfTuples`
     util.py         is_nested, shape_to_size       -> `STree.isNested`, `shapeToSize`
+    _blockarray.py  dtype (property)               -> `dtypeOf`
     _blockarray.py  __getitem__ (slice)            -> `sliceBounds`, `sliceLen`, `sliceIdx`, `getSlice`
     _blockarray.py  __setitem__                    -> `pyIndex`, `setItem` (before d088c11: `setItemOld`)
     scico/random.py _add_seed.fun_alt              -> `keyOf`, `seedOf`, `addSeedCore`, `addSeed`
@@ -371,6 +372,13 @@ def setItemOld (self : List α) (k : Int) (v : α) : Res (List α) :=
   match pyIndex self.length k with
   | none => .error .index
   | some j => .ok (self.set j v)
+
+/-- the `dtype` property: `self.arrays[0].dtype`, read from the blocks at the moment it is asked for
+    (IndexError for a block array without blocks) -/
+def dtypeOf (E : Env α δ) (self : List α) : Res δ :=
+  match self with
+  | [] => .error .index
+  | a :: _ => .ok (E.dt a)
 
 /-! ### `__getitem__` with a slice -/
 
